@@ -19,7 +19,7 @@ def sub_wf(with_alt):
     return wf
 
 
-def loop_item(rng, n_items, par, outcomes, with_alt=False, delays=None, extra_consumer=False):
+def loop_item(rng, n_items, par, outcomes, with_alt=False, delays=None, extra_consumer=False, after_ms=None):
     items = [{'id': 'i%d' % k} for k in range(n_items)]
     wf = {'steps': {'loop': {'kind': 'foreach', 'workflow': 'sub.yaml',
                              'fields': dict({'items': lit(items)}, **({'parallelism': lit(par)} if par is not None else {}))}},
@@ -29,6 +29,10 @@ def loop_item(rng, n_items, par, outcomes, with_alt=False, delays=None, extra_co
         wf['steps']['after'] = {'kind': 'plugin', 'pstep': 'nowork', 'src': 'after',
                                 'fields': {'input': tmap({'id': lit('after'), 'deps': tmap({'all': ref('steps.loop.outputs.success.data')})})}}
         wf['outputs']['success'] = tmap({'d': ref('steps.loop.outputs.success.data'), 'a': ref('steps.after.outputs.success.tok')})
+    if after_ms is not None:
+        # the loop gets its input only after another step has finished: it enters its execute stage first and waits there
+        wf['steps']['pre'] = {'kind': 'plugin', 'pstep': 'work', 'src': 'pre', 'fields': {'input': tmap({'id': lit('pre')})}}
+        wf['steps']['loop']['fields']['wait_for'] = ref('steps.pre.outputs.success')
     by_id = {}
     allok = True
     for k in range(n_items):
@@ -39,6 +43,9 @@ def loop_item(rng, n_items, par, outcomes, with_alt=False, delays=None, extra_co
             allok = False
     script = {'w': {'exec': {'out': 'success'}, 'exec_by_id': by_id}, 'after': {'exec': {'out': 'success'}}}
     oc = {'loop': {'enabled': True, 'beh': 'success' if allok else 'failed'}}
+    if after_ms is not None:
+        script['pre'] = {'exec': {'out': 'success', 'delay_ms': after_ms}}
+        oc['pre'] = okoc()
     if extra_consumer:
         oc['after'] = okoc()
     return {'wf': wf, 'subwfs': {'sub.yaml': sub_wf(with_alt)}, 'oc': oc, 'script': script, 'input': {'x': 'x', 'n': 1, 'flag': True},
@@ -64,6 +71,9 @@ def items_for(ctx):
             outs[rng.randrange(n)] = 'alt'
             items.append(loop_item(rng, n, 2, outs, with_alt=True))
         items.append(loop_item(rng, 3, 2, ['success'] * 3, extra_consumer=True))
+        # items that arrive after the loop has entered its execute stage
+        items.append(loop_item(rng, 3, 2, ['success'] * 3, after_ms=40))
+        items.append(loop_item(rng, 2, 1, ['success', 'error'], after_ms=15))
         # no parallelism declared: the documented default is one item at a time
         items.append(loop_item(rng, 4, None, ['success'] * 4, delays=[12, 8, 10, 6]))
         items.append(loop_item(rng, 3, None, ['success', 'error', 'success'], delays=[10, 10, 10]))
